@@ -29,7 +29,7 @@ def reached_count():
     return _reached
 
 
-class Rejected(Exception):
+class Rejected(BaseException):
     """concrete mode: an `assume` failed (the input is outside the harness' precondition)"""
 
 
